@@ -15,7 +15,7 @@
 EXTENDS WireAbs, Json
 
 CONSTANT Part      \* which slice of the vectors this run enumerates: "all", "single", "nest", or a kind (the pairs whose first field is of that kind)
-VARIABLE v
+VARIABLES v, d     \* the Message value; the detour (0..5, see WireAbs.DetourOf) of the API script through which the C++ side builds it
 
 F1_0  == <<0, 0, 128, 63>>    F2_0 == <<0, 0, 0, 64>>     F3_0 == <<0, 0, 64, 64>>   F4_0 == <<0, 0, 128, 64>>
 FNAN  == <<0, 0, 192, 127>>   FNEG0 == <<0, 0, 0, 128>>   FINF == <<0, 0, 128, 127>> FSNAN == <<1, 0, 128, 127>>
@@ -50,27 +50,33 @@ W0 == <<1, 2, 3, 132>>
 Single == {[what |-> <<0, 0, 0, 0>>, fields |-> <<>>]}
           \cup {[what |-> W0, fields |-> <<Fld(NA, k, c)>>] : k \in Kinds, c \in 1..3}
           \cup {[what |-> W0, fields |-> <<Fld(nm, "int32", 2)>>] : nm \in {<<>>, <<195, 169>>, <<110, 255>>, <<1>>}}    \* empty, non-ASCII, not UTF-8, control character
-Pairs(k) == UNION {{[what |-> W0, fields |-> <<Fld(NA, k, c), Fld(NB, k2, c2)>>], [what |-> W0, fields |-> <<Fld(NB, k2, c2), Fld(NA, k, c)>>]} : c \in 1..3, k2 \in Kinds, c2 \in 1..2}
-\* the Message wrapped d times: nesting depth d
+\* a pair of fields in both orders, built through detour dd
+PairsOf(k, c, k2, c2, dd) == {[m |-> [what |-> W0, fields |-> <<Fld(NA, k, c), Fld(NB, k2, c2)>>], d |-> dd], [m |-> [what |-> W0, fields |-> <<Fld(NB, k2, c2), Fld(NA, k, c)>>], d |-> (dd + 3) % 6]}
+Pairs(k) == UNION {PairsOf(k, c, k2, c2, (c * 2 + c2) % 6) : c \in 1..3, k2 \in Kinds, c2 \in 1..2}
+\* the Message wrapped dp times: nesting depth dp
 RECURSIVE Wrap(_, _)
-Wrap(mm, d) == IF d = 0 THEN mm ELSE [what |-> <<d, 0, 0, 0>>, fields |-> <<[name |-> <<109>>, type |-> TC_MESSAGE, items |-> <<Wrap(mm, d - 1)>>], Fld(<<122>>, "int8", 1)>>]
-Nest == {Wrap(Leaf(W0, k, SubSeq(Seq3(k), 1, 2)), d) : k \in Kinds, d \in 1..3}
+Wrap(mm, dp) == IF dp = 0 THEN mm ELSE [what |-> <<dp, 0, 0, 0>>, fields |-> <<[name |-> <<109>>, type |-> TC_MESSAGE, items |-> <<Wrap(mm, dp - 1)>>], Fld(<<122>>, "int8", 1)>>]
+Nest == {Wrap(Leaf(W0, k, SubSeq(Seq3(k), 1, 2)), dp) : k \in Kinds, dp \in 1..3}
         \cup {[what |-> W0, fields |-> <<[name |-> <<109>>, type |-> TC_MESSAGE, items |-> <<Wrap(Leaf(W0, k, SubSeq(Seq3(k), 1, 1)), 1), Wrap(Leaf(W0, "string", SubSeq(Seq3("string"), 1, 2)), 2), [what |-> <<0, 0, 0, 0>>, fields |-> <<>>]>>]>>] : k \in Kinds}
-
-NestNames == {Wrap([what |-> W0, fields |-> <<Fld(nm, "int32", 1), Fld(NB, "string", 2)>>], d) : nm \in {<<195, 169>>, <<110, 255>>, <<>>}, d \in 1..2}
-
+NestNames == {Wrap([what |-> W0, fields |-> <<Fld(nm, "int32", 1), Fld(NB, "string", 2)>>], dp) : nm \in {<<195, 169>>, <<110, 255>>, <<>>}, dp \in 1..2}
+\* longer fields, so that the item array is rotated / regrown at a larger capacity as well: 7 items of every kind (the three of Seq3 repeated)
+Long == {[what |-> W0, fields |-> <<[name |-> NA, type |-> TCK(k), items |-> Seq3(k) \o Seq3(k) \o SubSeq(Seq3(k), 1, 1)], Fld(NB, "int16", 2)>>] : k \in Kinds}
 \* three fields of any three kinds (thorough tier)
-Triples == {[what |-> <<0, 0, 0, 128>>, fields |-> <<Fld(NA, k, 1), Fld(<<99, 195, 169>>, k2, 2), Fld(NB, k3, 3)>>] : k \in Kinds, k2 \in Kinds, k3 \in Kinds}
+Triples == {[m |-> [what |-> <<0, 0, 0, 128>>, fields |-> <<Fld(NA, k, 1), Fld(<<99, 195, 169>>, k2, 2), Fld(NB, k3, 3)>>], d |-> (Len(Seq3(k)[1]) + Len(Seq3(k3)[2])) % 6] : k \in Kinds \ {"message"}, k2 \in Kinds, k3 \in Kinds \ {"message"}}
 
-Vectors == CASE Part = "single" -> Single [] Part = "triples" -> Triples [] Part = "nest" -> Nest \cup NestNames [] Part = "all" -> Single \cup Nest \cup NestNames \cup UNION {Pairs(k) : k \in Kinds}
+\* every detour for the single-field, nested and long vectors; one detour (varying with the item counts and the field order) per pair
+AllD(S) == {[m |-> mm, d |-> dd] : mm \in S, dd \in 0..5}
+Vectors == CASE Part = "single" -> AllD(Single) [] Part = "triples" -> Triples [] Part = "nest" -> AllD(Nest \cup NestNames) [] Part = "long" -> AllD(Long)
+             [] Part = "all" -> AllD(Single \cup Nest \cup NestNames \cup Long) \cup UNION {Pairs(k) : k \in Kinds}
              [] OTHER -> Pairs(Part)
 
-Init == v \in Vectors
-Next == UNCHANGED v
-Spec == Init /\ [][Next]_v
+Init == \E e \in Vectors : v = e.m /\ d = e.d
+Next == UNCHANGED <<v, d>>
+Spec == Init /\ [][Next]_<<v, d>>
 
 \* the codec's own laws on every vector
 VecOK == /\ WellFormed(v)
+         /\ Build(DetourOf(v, d)) = v            \* the script the C++ side executes leaves exactly this Message
          /\ LET b == Flatten(v) u == Unflatten(b) IN u.ok /\ u.msg = v /\ Len(b) = FlattenedSize(v) /\ Flatten(u.msg) = b
-Emit == PrintT("@@" \o ToJson([m |-> v, b |-> Flatten(v), z |-> FlattenedSize(v), py |-> Common("python", v), pyn |-> Common("pynative", v), f38 |-> F38(v), f39 |-> F39(v)]))
+Emit == PrintT("@@" \o ToJson([m |-> v, d |-> d, s |-> DetourOf(v, d), b |-> Flatten(v), z |-> FlattenedSize(v), py |-> Common("python", v), pyn |-> Common("pynative", v), f38 |-> F38(v), f39 |-> F39(v)]))
 =============================================================================
